@@ -343,8 +343,12 @@ func (w *world) expectedRelease(c *contractDef, s *nom.AccountBlock) *release {
 			// the preimage of the entry's hash lock under a SUPPORTED hash function (lockbounds.go); an entry whose hash type or
 			// lock length is outside the rules can be opened by nothing
 			opens := htlcPreimageOpens(h, pre)
+			// proxy unlocks are allowed unless the hash-locked party's last ACCEPTED call denied them (tracked by the
+			// harness from the accepted calls; a party that never called has the default: allowed)
 			allowed := true
-			if pi, err := definition.GetHtlcProxyUnlockInfo(w.storageOf(c.Addr), h.HashLocked); err == nil {
+			if pref, ok := w.proxyPref[h.HashLocked]; ok {
+				allowed = pref
+			} else if pi, err := definition.GetHtlcProxyUnlockInfo(w.storageOf(c.Addr), h.HashLocked); err == nil {
 				allowed = pi.Allowed
 			}
 			r.to, r.before = h.HashLocked, h.ExpirationTime
@@ -593,6 +597,12 @@ func (w *world) lockOp() {
 		k := kp
 		if e := w.pickMade("htlc.Create"); e != nil && len(e.args) >= 7 && rng.Intn(3) != 0 { // the hash-locked party of an open htlc
 			k = e.args[6].(*wallet.KeyPair)
+		}
+		// an explicit Allow is mostly followed by a Deny of the same party later (Allow -> Deny -> a proxy's unlock)
+		if pref, ok := w.proxyPref[k.Address]; ok && pref && rng.Intn(3) != 0 {
+			mn = definition.DenyHtlcProxyUnlockMethodName
+		} else if !ok && rng.Intn(2) == 0 {
+			mn = definition.AllowHtlcProxyUnlockMethodName
 		}
 		call(k, types.HtlcContract, znn, zero, definition.ABIHtlc.PackMethodPanic(mn), "htlc.proxy")
 	case 15:
